@@ -124,11 +124,31 @@ func scPrincipal(r *Run) {
 	}
 	reqNo := 0
 	// the principal's approval callback (scripted user decision)
+	// (pipelined runs: the delegate sends its requests without waiting for the answers, and the user takes a
+	// while to decide; the request a callback invocation is about is then identified by its content)
+	pipelined := nReq >= 2 && r.Intn("cfg", 4) == 0
+	approvalDelay := time.Duration(0)
+	if pipelined {
+		approvalDelay = time.Duration(r.Intn("cfg", 1500)) * time.Millisecond
+	}
+	r.SetCfg("pipelined", pipelined)
+	pendingIdx := map[string][]int{}
 	checkIntent := func(i authgrants.Intent, c *certs.Certificate) error {
 		mu.Lock()
-		defer mu.Unlock()
 		idx := reqNo - 1
+		if pipelined {
+			idx = -1
+			if q := pendingIdx[intentKey(i)]; len(q) > 0 {
+				idx, pendingIdx[intentKey(i)] = q[0], q[1:]
+			}
+		}
 		ok := idx >= 0 && idx < len(decisions) && decisions[idx]
+		mu.Unlock()
+		if approvalDelay > 0 {
+			time.Sleep(approvalDelay) // the user thinks; the verdict is about what was shown when the question was asked
+		}
+		mu.Lock()
+		defer mu.Unlock()
 		approvals = append(approvals, &approval{key: intentKey(i), ok: ok, at: tick()})
 		r.Logf("approval callback #%d -> %v", idx, ok)
 		if ok {
@@ -145,7 +165,11 @@ func scPrincipal(r *Run) {
 	}
 
 	// --- target side
-	targetMode := r.Intn("cfg", 6) // 0/1 real target instance, 2 scripted confirm, 3 scripted deny, 4 scripted wrong type/garbage, 5 scripted close
+	targetMode := r.Intn("cfg", 7) // 0/1 real target instance, 2 scripted confirm, 3 scripted deny, 4 scripted wrong type/garbage, 5 scripted close, 6 scripted: per-request verdict, some answers late
+	slowTarget := time.Duration(0) // the longest a scripted answer may take in this run
+	if targetMode == 6 {
+		slowTarget = 70 * time.Second
+	}
 	targetCheckOK := r.Intn("cfg", 4) != 0
 	targetStoreOK := r.Intn("cfg", 4) != 0
 	setupMode := r.Intn("cfg", 8) // 0..4 normal, 5 fails before the callback, 6 fails after the callback, 7 connection dies later
@@ -255,6 +279,20 @@ func scPrincipal(r *Run) {
 					forwards = append(forwards, forwarded{intentKey(in), tick()})
 					mu.Unlock()
 					switch targetMode {
+					case 6:
+						// a target that takes its time (seconds to more than a minute) and decides per request
+						if r.Intn("tgt", 2) == 0 {
+							time.Sleep([]time.Duration{time.Second, 15 * time.Second, 25 * time.Second, 45 * time.Second, 65 * time.Second}[r.Intn("tgt", 5)])
+							r.CountFault("target-answers-late", 1)
+						}
+						if r.Intn("tgt", 2) == 0 {
+							mu.Lock()
+							stored[intentKey(in)]++
+							mu.Unlock()
+							authgrants.WriteIntentConfirmation(tB)
+						} else {
+							authgrants.WriteIntentDenied(tB, "scripted target denies")
+						}
 					case 2:
 						mu.Lock()
 						stored[intentKey(in)]++
@@ -309,7 +347,7 @@ func scPrincipal(r *Run) {
 	delegateKey := newX25519()
 	delegateCert := SelfSigned(delegateKey.Public, certs.RawStringName("delegate"))
 	sameTarget := r.Intn("cfg", 3) != 0
-	for i := 0; i < nReq; i++ {
+	mkIntent := func(i int) authgrants.Intent {
 		in := authgrants.Intent{GrantType: authgrants.Command, TargetPort: 77, StartTime: time.Now(), ExpTime: time.Now().Add(time.Hour),
 			TargetSNI: certs.DNSName("target.sim"), TargetUsername: "user", DelegateCert: *delegateCert}
 		in.AssociatedData.CommandGrantData.Cmd = fmt.Sprintf("cmd-%d-%x", i, r.Bytes("cmd", 4))
@@ -325,6 +363,68 @@ func scPrincipal(r *Run) {
 		if !sameTarget && i > 0 && r.Intn("req", 2) == 0 {
 			in.TargetSNI = certs.DNSName("other-target.sim")
 		}
+		return in
+	}
+	seqN := nReq
+	if pipelined {
+		seqN = 0
+		ins := make([]authgrants.Intent, nReq)
+		mu.Lock()
+		for i := range ins {
+			ins[i] = mkIntent(i)
+			pendingIdx[intentKey(ins[i])] = append(pendingIdx[intentKey(ins[i])], i)
+		}
+		mu.Unlock()
+		sent := 0
+		for i := range ins {
+			r.Logf("delegate sends request %d (%s) without waiting", i, ins[i].AssociatedData.CommandGrantData.Cmd)
+			if err := authgrants.WriteIntentRequest(delegate, ins[i]); err != nil {
+				r.Logf("delegate write failed: %v", err)
+				break
+			}
+			sent++
+			if r.Intn("pipe", 3) == 0 {
+				time.Sleep(time.Duration(r.Intn("pipe", 300)) * time.Millisecond)
+			}
+		}
+		var got []authgrants.AgMessage
+		window := time.After(2*time.Minute + time.Duration(nReq)*slowTarget)
+	collectAll:
+		for {
+			select {
+			case m := <-answers:
+				got = append(got, m)
+				if len(got) >= sent {
+					window = time.After(3 * time.Second) // quiet period: one answer too many would show up now
+				}
+			case st := <-strays:
+				r.Violate("C06/answer-misframed", "pipelined requests: the delegate's stream carries bytes that are not a well-framed answer (%s)", st)
+				break collectAll
+			case <-window:
+				break collectAll
+			}
+		}
+		r.Obligation(1)
+		if !r.Failed() && len(got) != sent {
+			r.Violate(fmt.Sprintf("C06/answers-per-request/%d", min(len(got)/max(sent, 1), 2)), "%d pipelined requests (decisions %v, target mode %d, setup mode %d): the delegate received %d answers", sent, decisions, targetMode, setupMode, len(got))
+		}
+		for j := 0; j < len(got) && j < sent && !r.Failed(); j++ {
+			if got[j].MsgType == authgrants.IntentConfirmation {
+				mu.Lock()
+				nst := stored[intentKey(ins[j])]
+				if nst > 0 {
+					stored[intentKey(ins[j])]--
+				}
+				mu.Unlock()
+				r.Obligation(1)
+				if nst == 0 {
+					r.Violate("C06/confirmation-without-stored-grant", "pipelined request %d was confirmed to the delegate although the target never accepted and stored that intent", j)
+				}
+			}
+		}
+	}
+	for i := 0; i < seqN; i++ {
+		in := mkIntent(i)
 		mu.Lock()
 		reqNo = i + 1
 		mu.Unlock()
@@ -336,7 +436,7 @@ func scPrincipal(r *Run) {
 		// exactly one well-framed answer per request
 		got := 0
 		var first authgrants.AgMessage
-		window := time.After(30 * time.Second)
+		window := time.After(30*time.Second + slowTarget)
 	collect:
 		for {
 			select {
